@@ -61,6 +61,7 @@ type Hub struct {
 	isShutdown bool
 
 	muxCon        sync.Mutex
+	muxConKeep    sync.Mutex // makes "check for a double connection" + "register" one step
 	muxConAttempt sync.Mutex
 	muxReg        sync.Mutex
 	muxMdns       sync.Mutex
